@@ -1360,6 +1360,9 @@ impl World {
 			// the txpool as `evict_transaction` saw it: the old entries and the one just admitted
 			let mut pre = before.clone();
 			pre.extend(after.iter().filter(|a| !before.contains(a)).cloned());
+			// which transaction was removed: compared with the model's choice as a specification value
+			let vs = self.tx_sig(&gone[0]);
+			out.line("pool evicted", &vs);
 			self.eviction_oracle(out, &pre, &after, &lhs);
 		}
 		self.over_capacity_before = before.len() > self.cfg.max_pool;
@@ -1563,6 +1566,11 @@ impl World {
 		}
 		self.note_evicted(&gone);
 		out.line("pool evict", if r.is_ok() { "ok" } else { "panic" });
+		let vs = match gone.first() {
+			Some(g) => self.tx_sig(g),
+			None => "none".to_string(),
+		};
+		out.line("pool evicted", &vs);
 		self.eviction_oracle(out, &before, &after, "pool evict");
 		self.stat("op:evict");
 		self.obs(out, "pool evict");
@@ -3084,7 +3092,7 @@ fn scenario_evict_trees(work: &str, out: &mut Out, total: &mut BTreeMap<String, 
 		"P-D-EF:subtree-outranks-root",
 	];
 	let thorough = tier_thorough();
-	let parts = if thorough { TREE_PARTS } else { 2 };
+	let parts = TREE_PARTS;
 	let selected: Vec<(&'static str, Vec<Node>, bool)> =
 		tree_patterns().into_iter().filter(|(l, _, _)| thorough || quick_set.contains(l)).collect();
 	for (k, (label, nodes, leaf)) in selected.into_iter().enumerate() {
@@ -4533,6 +4541,368 @@ fn scenario_nrd_disabled(work: &str, out: &mut Out, total: &mut BTreeMap<String,
 	merge_stats(&w, total);
 }
 
+/// `PoolConfig::accept_fee_base` DIFFERENT from `global::get_accept_fee_base()`.  The pool never reads
+/// its own config field: `is_acceptable` calls `Transaction::accept_fee`, which reads the global
+/// (src/bin/grin.rs copies the configured value into the global once at start-up).  The model's
+/// `Cfg.feeBase` is the global; this job shows the code agrees: config 10x the global, config half
+/// the global, config 0 - admission follows weight * GLOBAL in all of them, on both paths.
+fn scenario_fee_base_config(work: &str, out: &mut Out, total: &mut BTreeMap<String, u64>) {
+	let mut rng = Rng::new(seed_from_env().wrapping_mul(43).wrapping_add(1511));
+	let mut w = World::new(work, "fee-base-config", Cfg { max_pool: 50, max_stem: 50, mine_w: 250 });
+	print_cfg(&w, out);
+	warm_up(&mut w, out, &mut rng, 9);
+	w.print_head(out);
+	w.obs(out, "start");
+	for (k, cfg_base) in [FEE_BASE * 10, FEE_BASE / 2, 0, FEE_BASE].into_iter().enumerate() {
+		w.pool.config.accept_fee_base = cfg_base;
+		out.raw(&format!(
+			"pool cfg max_pool={} max_stem={} mine_w={} fee_base={} max_tx_w={} max_block_w={} maturity={} cfg_fee_base={}",
+			w.cfg.max_pool,
+			w.cfg.max_stem,
+			w.cfg.mine_w,
+			global::get_accept_fee_base(),
+			global::max_tx_weight(),
+			global::max_block_weight(),
+			MATURITY,
+			cfg_base
+		));
+		let free = w.free_utxo();
+		if free.len() < 4 {
+			break;
+		}
+		let wt = World::weight_of(1, 1);
+		// exactly the global minimum; one below it; exactly the CONFIGURED minimum (when that is lower:
+		// refused; when higher: far more than needed); one below the configured minimum when higher
+		let fees: Vec<(u64, &str)> = vec![
+			(wt * FEE_BASE, "global-minimum"),
+			(wt * FEE_BASE - 1, "global-minimum-less-1"),
+			((wt * cfg_base).max(1), "configured-minimum"),
+			((wt * cfg_base).max(2) - 1, "configured-minimum-less-1"),
+		];
+		for (j, (fee, label)) in fees.into_iter().enumerate() {
+			if let Some(tx) = w.spend(&[free[j]], 1, fee, None) {
+				let t = w.add_tx(out, tx, vec![], &format!("fee-base-config:{}", label));
+				let stem = (j + k) % 2 == 1;
+				let r = w.submit(out, t, TxSource::Broadcast, stem, true);
+				let expect = if fee >= wt * FEE_BASE { "ok" } else { "err:LowFee" };
+				w.stat(&format!(
+					"fee-base-config:config={}x-global/2:{}:{}:{}",
+					cfg_base * 2 / FEE_BASE,
+					label,
+					if r == expect { "follows-the-global" } else { "DOES-NOT-follow-the-global" },
+					r
+				));
+			}
+		}
+		let txs = w.pool.prepare_mineable_transactions().unwrap_or_default();
+		let parent = w.head;
+		if let Some(id) = w.build_block(parent, 1, &txs).or_else(|| w.build_block(parent, 1, &[])) {
+			w.deliver(out, id);
+		}
+	}
+	merge_stats(&w, total);
+}
+
+/// NRD relative height at EXACTLY the boundary across a reorganisation that changes the height of the
+/// earlier instance of the excess, and one excess in txpool + stempool + block at once.
+/// Branch A: the excess K is confirmed at p+1, head A2 (next = p+3).  Branch B (more work): K confirmed at
+/// p+2.  variant 0: B ends at B3 (next = p+4: a kernel with relative height 2 is admissible at exactly that
+/// height, 3 is one too early - with the stale instance of branch A it would be admissible); variant 1: B ends
+/// at B2 itself (next = p+3, head LOWER than... equal height, more work): the pooled kernel with relative
+/// height 2, admitted under branch A at its boundary, is too recent now and must leave in the reconciliation.
+fn scenario_nrd_reorg_boundary(work: &str, out: &mut Out, total: &mut BTreeMap<String, u64>, variant: usize) {
+	let mut rng = Rng::new(seed_from_env().wrapping_mul(47).wrapping_add(1700 + variant as u64));
+	let name = format!("nrd-reorg-boundary-{}", variant);
+	let mut w = World::new(work, &name, Cfg { max_pool: 50, max_stem: 50, mine_w: 250 });
+	print_cfg(&w, out);
+	warm_up(&mut w, out, &mut rng, 12);
+	// plenty of plain outputs
+	for _ in 0..2 {
+		let free = w.free_utxo();
+		let mut txs = vec![];
+		if let Some(o) = free.iter().cloned().find(|o| w.kit.outs[*o].coinbase) {
+			if let Some(t) = w.spend(&[o], 8, World::weight_of(1, 8) * FEE_BASE, None) {
+				txs.push(t);
+			}
+		}
+		let parent = w.head;
+		if let Some(id) = w.build_block(parent, 1, &txs).or_else(|| w.build_block(parent, 1, &[])) {
+			w.deliver(out, id);
+		}
+	}
+	w.print_head(out);
+	w.obs(out, "start");
+	const SLOT: usize = 9;
+	let w11 = World::weight_of(1, 1);
+	let fail = |out: &mut Out, w: &World, what: &str, lhs: &str, res: &str, detail: &str| {
+		out.raw(&format!(
+			"#ORACLE-FAIL C14 {} hist={} head height {} (next block {}): {} => {}; {}",
+			what,
+			w.name,
+			w.kit.blks[w.head].height,
+			w.kit.blks[w.head].height + 1,
+			lhs,
+			res,
+			detail
+		));
+	};
+	let mut spare: Vec<usize> = w.free_utxo().into_iter().filter(|o| !w.kit.outs[*o].coinbase).collect();
+	if spare.len() < 9 {
+		out.raw(&format!("#STAT scenario:{}:not-enough-plain-outputs={}", name, spare.len()));
+		merge_stats(&w, total);
+		return;
+	}
+	let mut nrd_tx = |w: &mut World, rel: u64, o: usize| -> Option<Transaction> {
+		let v = w.kit.outs[o].value;
+		let fee = w11 * FEE_BASE * 2;
+		w.kit.build_tx(&TxSpec { inputs: vec![o], outputs: vec![(v - fee, None)], kernel: KSpec::Nrd(fee, rel, SLOT) }).ok()
+	};
+	let p = w.head;
+	let hp = w.kit.blks[p].height;
+	// the two confirmed instances (different transactions, same excess)
+	let ka = nrd_tx(&mut w, 1, spare.remove(0));
+	let kb = nrd_tx(&mut w, 1, spare.remove(0));
+	let (ka, kb) = match (ka, kb) {
+		(Some(a), Some(b)) => (a, b),
+		_ => {
+			merge_stats(&w, total);
+			return;
+		}
+	};
+	// branch A: K at p+1, then an empty block
+	let a1 = w.build_block(p, 1, &[ka]);
+	let a2 = a1.and_then(|a1| w.build_block(a1, 1, &[]));
+	// branch B: empty, K at p+2 (heavier), (variant 0) one more
+	let b1 = w.build_block(p, 1, &[]);
+	let b2 = b1.and_then(|b1| w.build_block(b1, 6, &[kb]));
+	let b3 = if variant == 0 { b2.and_then(|b2| w.build_block(b2, 1, &[])) } else { None };
+	let (a1, a2, b1, b2) = match (a1, a2, b1, b2) {
+		(Some(a), Some(b), Some(c), Some(d)) => (a, b, c, d),
+		_ => {
+			out.raw(&format!("#STAT scenario:{}:branches-not-built", name));
+			merge_stats(&w, total);
+			return;
+		}
+	};
+	w.deliver(out, a1);
+	w.deliver(out, a2);
+	// probes: (relative height, path) against the instance at `h0` with the next block at `next`
+	let mut probe = |w: &mut World, out: &mut Out, rel: u64, stem: bool, h0: u64, label: &str, spare: &mut Vec<usize>| -> String {
+		let o = match spare.pop() {
+			Some(o) => o,
+			None => return "none".into(),
+		};
+		let tx = match nrd_tx(w, rel, o) {
+			Some(t) => t,
+			None => return "none".into(),
+		};
+		let next = w.next_height();
+		let pooled_same = w.pool.txpool.entries.iter().chain(w.pool.stempool.entries.iter()).any(|e| e.tx.kernels().iter().any(|x| x.excess == tx.kernels()[0].excess));
+		let t = w.add_tx(out, tx, vec![], &format!("nrd-reorg:{}", label));
+		let res = w.submit(out, t, TxSource::Broadcast, stem, true);
+		let lhs = format!("NRD kernel, relative height {}, excess last on the path of the head at height {}, next block {} ({})", rel, h0, next, label);
+		w.stat(&format!("nrd-reorg:{}:{}:{}", label, if stem { "stem" } else { "fluff" }, res));
+		if next < h0 + rel && res == "ok" {
+			fail(out, w, "pool-admits-nrd-kernel-before-its-relative-height", &lhs, &res, "");
+		} else if next >= h0 + rel && res != "ok" && !pooled_same {
+			fail(out, w, "pool-refuses-nrd-kernel-at-its-relative-height", &lhs, &res, "");
+		}
+		res
+	};
+	// on branch A: K at p+1, next = p+3
+	probe(&mut w, out, 3, false, hp + 1, "branch-A:one-below-the-boundary", &mut spare);
+	probe(&mut w, out, 3, true, hp + 1, "branch-A:one-below-the-boundary", &mut spare);
+	// admitted at exactly its boundary: this one stays in the txpool
+	probe(&mut w, out, 2, false, hp + 1, "branch-A:at-the-boundary", &mut spare);
+	// the same excess once more: on the stem path it meets the txpool's kernel in the aggregate, on the
+	// fluff path the txpool's own
+	probe(&mut w, out, 2, true, hp + 1, "branch-A:same-excess-already-in-txpool", &mut spare);
+	probe(&mut w, out, 2, false, hp + 1, "branch-A:same-excess-already-in-txpool", &mut spare);
+	// the reorganisation: K now at p+2
+	w.deliver(out, b1);
+	let r = w.deliver(out, b2);
+	w.stat(&format!("nrd-reorg:deliver-heavy-block-with-the-excess:{}", r));
+	if let Some(b3) = b3 {
+		w.deliver(out, b3);
+	}
+	let still = w.pool.txpool.entries.iter().any(|e| e.tx.kernels().iter().any(|k| k.is_nrd()));
+	let next = w.next_height();
+	w.stat(&format!("nrd-reorg:variant-{}:next={}:instance-now-at-p+2:pooled-relative-height-2-kernel-{}", variant, next - hp, if still { "kept" } else { "dropped" }));
+	if still && next < hp + 2 + 2 {
+		fail(out, &w, "pool-keeps-nrd-kernel-that-is-too-recent-after-reorg", &format!("txpool entry with relative height 2, excess now at height {}, next block {}", hp + 2, next), "kept", "");
+	}
+	// on branch B: K at p+2
+	probe(&mut w, out, 3, false, hp + 2, "branch-B:relative-height-3", &mut spare);
+	probe(&mut w, out, 2, true, hp + 2, "branch-B:relative-height-2", &mut spare);
+	// the next block from the mineable set; then once more
+	for _ in 0..2 {
+		let txs = w.pool.prepare_mineable_transactions().unwrap_or_default();
+		let parent = w.head;
+		if let Some(id) = w.build_block(parent, 1, &txs).or_else(|| w.build_block(parent, 1, &[])) {
+			w.deliver(out, id);
+		}
+		let h0 = w.states.get(&w.head).and_then(|st| st.nrd.iter().find(|(e, _)| *e == nrd_excess_tag(&w.kit.kc, SLOT)).map(|x| x.1)).unwrap_or(hp + 2);
+		let d = w.next_height() - h0;
+		probe(&mut w, out, d + 1, false, h0, "after-mining:one-below-the-boundary", &mut spare);
+		probe(&mut w, out, d.max(1), false, h0, "after-mining:at-the-boundary", &mut spare);
+	}
+	merge_stats(&w, total);
+}
+
+/// Every kernel variant (NoRecentDuplicate, HeightLocked, Plain) at EVERY header-version boundary:
+/// the chain is grown from the genesis one block at a time to height 13 (AutomatedTesting: version k+1
+/// from height 3k; heads at the last height of each version and the first of the next are all visited),
+/// and at every head one transaction per variant is submitted (fluff / stem alternating).  Oracles: an
+/// NRD kernel admitted while the head's header version is below 4 (what `verify_kernel_variants` reads)
+/// or while the NEXT block's version is below 4 (what block validation demands) is #ORACLE-FAIL; after
+/// every submission the block built from the mineable set on that head must be accepted by a chain
+/// (oracle of `obs`); then the next block IS that block.
+fn scenario_hf_boundaries(work: &str, out: &mut Out, total: &mut BTreeMap<String, u64>) {
+	let mut rng = Rng::new(seed_from_env().wrapping_mul(53).wrapping_add(1901));
+	let mut w = World::new(work, "hf-boundaries", Cfg { max_pool: 50, max_stem: 50, mine_w: 250 });
+	print_cfg(&w, out);
+	w.print_head(out);
+	w.obs(out, "start");
+	let mut combo = 0usize;
+	for _ in 0..14 {
+		let head_h = w.kit.blks[w.head].height;
+		let next = head_h + 1;
+		let hv = w.node.head_header().map(|h| h.version.0).unwrap_or(0);
+		let nv = grin_core::consensus::header_version(next).0;
+		// spendable (mature at the next block) plain or coinbase outputs; before height 2 only the
+		// (immature) genesis coinbase exists: it is used all the same (the variant gate comes first)
+		let mut free = w.free_utxo();
+		if free.is_empty() {
+			free = vec![0];
+		}
+		let mut k = 0usize;
+		let mut take = |free: &Vec<usize>| -> usize {
+			let o = free[k % free.len()];
+			k += 1;
+			o
+		};
+		// many outputs early on so that later heads have three distinct inputs
+		let nout = if free.len() < 8 { 4 } else { 1 };
+		let wt = World::weight_of(1, nout);
+		for variant in ["nrd", "height-locked", "plain"] {
+			let o = take(&free);
+			let fee = wt * FEE_BASE * 2 + rng.below(wt);
+			let f = match variant {
+				"nrd" => Some(KernelFeatures::NoRecentDuplicate {
+					fee: FeeFields::new(0, fee).unwrap(),
+					relative_height: NRDRelativeHeight::new(1 + rng.below(3)).unwrap(),
+				}),
+				"height-locked" => Some(KernelFeatures::HeightLocked { fee: FeeFields::new(0, fee).unwrap(), lock_height: next }),
+				_ => None,
+			};
+			let tx = match w.spend(&[o], nout, fee, f) {
+				Some(t) => t,
+				None => continue,
+			};
+			combo += 1;
+			let stem = combo % 2 == 0;
+			let form = if combo % 3 == 0 { Form::V2 } else { Form::V3 };
+			let t = w.add_tx(out, tx, vec![], &format!("hf:{}", variant));
+			let res = w.submit_form(out, t, pick_src(&mut rng), stem, combo % 4 != 0, form);
+			w.stat(&format!("hf:head-v{}-next-v{}:height-{}:{}:{}:{}", hv, nv, head_h, variant, if stem { "stem" } else { "fluff" }, res));
+			if variant == "nrd" && res == "ok" && (hv < 4 || nv < 4) {
+				out.raw(&format!(
+					"#ORACLE-FAIL C14 nrd-kernel-admitted-before-hf3 hist=hf-boundaries head height {} (header version {}), next block version {}: pool submit t{} stem={} => ok",
+					head_h, hv, nv, t, stem
+				));
+			}
+		}
+		// the next block: what the pool offers for mining (an empty block if that is refused)
+		let txs = w.pool.prepare_mineable_transactions().unwrap_or_default();
+		let parent = w.head;
+		match w.build_block(parent, 1, &txs) {
+			Some(id) => {
+				w.deliver(out, id);
+			}
+			None => {
+				if !txs.is_empty() {
+					w.stat("hf:block-from-the-mineable-set-refused-by-the-builder-chain");
+				}
+				if let Some(id) = w.build_block(parent, 1, &[]) {
+					w.deliver(out, id);
+				}
+			}
+		}
+	}
+	merge_stats(&w, total);
+}
+
+/// Eviction when the lowest-paying bucket is a dependent CHAIN whose aggregate is heavier than the
+/// maximum TRANSACTION weight (226): `evict_transaction` buckets with `Weighting::NoLimit`, so the whole
+/// chain is one bucket and the victim is its tail (a leaf).  variant 0: three 1-in/5-out transactions
+/// (109 each; aggregated 109 / 196 / 283) and a 1-in/1-out descendant; variant 1: the boundary exactly -
+/// aggregated weights 109 / 196 / 220 / 223 / 226 / 229: only the last link is over the limit.  The chain
+/// pays the lowest rate of the pool, the pool is over capacity, and well-paying outsiders arrive: every
+/// admission evicts one link, tail first; the victim is compared with the model's choice (`pool evicted`,
+/// a specification value) and with the leaf oracle.
+fn scenario_evict_heavy_chain(work: &str, out: &mut Out, total: &mut BTreeMap<String, u64>, variant: usize) {
+	let mut rng = Rng::new(seed_from_env().wrapping_mul(59).wrapping_add(2100 + variant as u64));
+	let shape: Vec<usize> = if variant == 0 { vec![5, 5, 5, 1] } else { vec![5, 5, 2, 1, 1, 1] };
+	let name = format!("evict-heavy-chain-{}", variant);
+	let max_pool = shape.len();
+	let mut w = World::new(work, &name, Cfg { max_pool, max_stem: 5, mine_w: 250 });
+	print_cfg(&w, out);
+	warm_up(&mut w, out, &mut rng, 12);
+	w.print_head(out);
+	w.obs(out, "start");
+	let mut free = w.free_utxo();
+	if free.len() < 6 {
+		out.raw(&format!("#STAT scenario:{}=not-enough-outputs({})", name, free.len()));
+		merge_stats(&w, total);
+		return;
+	}
+	// the chain: every link pays exactly the minimum for its own weight (rate 2, the lowest possible)
+	let mut input = free.remove(0);
+	let mut agg_w = 0u64;
+	for (k, nout) in shape.iter().enumerate() {
+		let wt = World::weight_of(1, *nout);
+		let tx = match w.spend(&[input], *nout, wt * FEE_BASE, None) {
+			Some(t) => t,
+			None => break,
+		};
+		input = w.tx_outs(&tx)[0];
+		agg_w = if k == 0 { wt } else { agg_w + wt - 22 };
+		let t = w.add_tx(out, tx, vec![], &format!("heavy-chain:link-{}:aggregated-weight-{}", k, agg_w));
+		let r = w.submit_form(out, t, TxSource::Broadcast, false, true, if k % 2 == 0 { Form::V3 } else { Form::V2 });
+		w.stat(&format!("heavy-chain:variant-{}:link-{}:aggregated-weight-{}:{}:{}", variant, k, agg_w, if agg_w > global::max_tx_weight() { "over-max-tx-weight" } else { "within-max-tx-weight" }, r));
+	}
+	w.stat_max("heavy-chain:max-aggregated-weight-of-the-chain", agg_w);
+	// one well-paying outsider brings the pool over capacity, the following ones evict
+	let w11 = World::weight_of(1, 1);
+	for k in 0..(shape.len() + 1) {
+		if free.is_empty() {
+			break;
+		}
+		let o = free.remove(0);
+		if let Some(tx) = w.spend(&[o], 1, w11 * FEE_BASE * (5 + k as u64), None) {
+			let before = w.pool.txpool.entries.len();
+			let t = w.add_tx(out, tx, vec![], "heavy-chain:outsider");
+			let r = w.submit(out, t, TxSource::Broadcast, false, true);
+			let after = w.pool.txpool.entries.len();
+			w.stat(&format!("heavy-chain:outsider:{}:txpool-{}-to-{}", r, before.min(9), after.min(9)));
+		}
+	}
+	// explicit evictions as well
+	for _ in 0..2 {
+		if w.pool.txpool.entries.len() > 1 {
+			w.evict(out);
+		}
+	}
+	for _ in 0..3 {
+		let txs = w.pool.prepare_mineable_transactions().unwrap_or_default();
+		let parent = w.head;
+		if let Some(id) = w.build_block(parent, 1, &txs).or_else(|| w.build_block(parent, 1, &[])) {
+			w.deliver(out, id);
+		}
+	}
+	merge_stats(&w, total);
+}
+
 fn run_history(
 	work: &str,
 	out: &mut Out,
@@ -4682,7 +5052,7 @@ fn main() {
 			}
 		}
 	}
-	if mode == "all" || mode == "scenarios" {
+	if mode == "all" || mode == "scenarios" || mode == "part1" || mode == "part2" {
 		jobs.push(("evict-witness".into(), Box::new(|w, o, t| scenario_evict_witness(w, o, t))));
 		jobs.push(("evict-chain".into(), Box::new(|w, o, t| scenario_evict_chain(w, o, t))));
 		jobs.push(("low-fee-at-capacity".into(), Box::new(|w, o, t| scenario_low_fee_at_capacity(w, o, t))));
@@ -4700,13 +5070,28 @@ fn main() {
 		jobs.push(("degenerate".into(), Box::new(|w, o, t| scenario_degenerate(w, o, t))));
 		jobs.push(("stempool-reconcile".into(), Box::new(|w, o, t| scenario_stempool_reconcile(w, o, t))));
 		jobs.push(("nrd-disabled".into(), Box::new(|w, o, t| scenario_nrd_disabled(w, o, t))));
+		jobs.push(("fee-base-config".into(), Box::new(|w, o, t| scenario_fee_base_config(w, o, t))));
+		jobs.push(("hf-boundaries".into(), Box::new(|w, o, t| scenario_hf_boundaries(w, o, t))));
+		for v in 0..2 {
+			jobs.push((format!("evict-heavy-chain-{}", v), Box::new(move |w, o, t| scenario_evict_heavy_chain(w, o, t, v))));
+		}
+		for v in 0..2 {
+			jobs.push((format!("nrd-reorg-boundary-{}", v), Box::new(move |w, o, t| scenario_nrd_reorg_boundary(w, o, t, v))));
+		}
 		for v in 0..4 {
 			jobs.push((format!("reorg-replay-stem-{}", v), Box::new(move |w, o, t| scenario_reorg_replay_stem(w, o, t, v))));
 		}
 		let nrand = if thorough { 12 } else { 0 };
-		for part in 0..(if thorough { TREE_PARTS } else { 2 }) {
+		for part in 0..TREE_PARTS {
 			jobs.push((format!("evict-trees-{}", part), Box::new(move |w, o, t| scenario_evict_trees(w, o, t, part, nrand))));
 		}
+	}
+	// the scenarios in two registered runs (`part1`, `part2`) so that each stays inside the quick budget
+	const PART1: [&str; 9] = ["evict-witness", "evict-chain", "low-fee-at-capacity", "full-aggregate", "aggregate-low-fee", "evict-children", "evict-trees", "evict-heavy-chain", "hf-boundaries"];
+	if mode == "part1" {
+		jobs.retain(|(n, _)| PART1.iter().any(|p| n.starts_with(p)));
+	} else if mode == "part2" {
+		jobs.retain(|(n, _)| !PART1.iter().any(|p| n.starts_with(p)));
 	}
 	if mode == "all" || mode == "random" {
 		let nh: usize = args.get(2).and_then(|s| s.parse().ok()).unwrap_or(if thorough { 16 } else { 4 });
@@ -4741,11 +5126,11 @@ fn main() {
 	// long jobs are started first (the output order stays the job order)
 	let mut order: Vec<(usize, String, Job)> = jobs.into_iter().enumerate().map(|(i, (n, j))| (i, n, j)).collect();
 	let cost = |n: &str| -> u32 {
-		if n.starts_with("evict-trees") || n == "forms" || n == "maturity" {
+		if n.starts_with("evict-trees") || n == "forms" || n == "maturity" || n == "stempool-reconcile" || n == "mine-limit" {
 			0
-		} else if n.starts_with('h') || n.starts_with('e') && !n.starts_with("evict-") || n == "stempool-reconcile" {
+		} else if n.starts_with('h') || n.starts_with('e') && !n.starts_with("evict-") || n == "fee-shift" || n == "aggregate-low-fee" || n.starts_with("evict-children") {
 			1
-		} else if n.starts_with("evict-children") || n == "aggregate-low-fee" {
+		} else if n.starts_with("reorg-") || n == "nrd-disabled" || n.starts_with("nrd-reorg") || n == "hf-boundaries" || n.starts_with("evict-heavy") || n == "fee-base-config" || n == "degenerate" || n == "recreated-commitment" {
 			2
 		} else {
 			3
@@ -4793,6 +5178,7 @@ fn main() {
 					let _ = std::fs::create_dir_all(&dir);
 					let mut out = Out::new();
 					let mut stats = BTreeMap::new();
+					let tjob = std::time::Instant::now();
 					// a panic that escapes the guarded pool calls (in the harness itself, or in chain / pool
 					// code reached through an oracle) must not take the whole run down silently
 					let r = std::panic::catch_unwind(std::panic::AssertUnwindSafe(|| {
@@ -4811,7 +5197,7 @@ fn main() {
 					}
 					let _ = std::fs::remove_dir_all(&dir);
 					if std::env::var("VERIF_DEBUG").is_ok() {
-						eprintln!("[{:7.2}s] done {}", t0.elapsed().as_secs_f64(), name);
+						eprintln!("[{:7.2}s] done {} ({:.2}s)", t0.elapsed().as_secs_f64(), name, tjob.elapsed().as_secs_f64());
 					}
 					results.lock().unwrap_or_else(|e| e.into_inner())[i] = Some((out.buf, stats));
 				}
